@@ -124,7 +124,7 @@ def check_builder(W, rec, rng):
     if unquote(path).startswith("//"):
         return
     qch = [c for c in CH if c not in ("%FF", "%80")] + ["?", "#", "/"]
-    q = MultiDict([("".join(rng.choice(qch) for _ in range(rng.randint(1, 3))), "".join(rng.choice(qch) for _ in range(rng.randint(0, 3)))) for _ in range(rng.randint(0, 3))])
+    q = MultiDict([("".join(rng.choice(qch) for _ in range(rng.choice((0, 1, 1, 2, 3)))), "".join(rng.choice(qch) for _ in range(rng.randint(0, 3)))) for _ in range(rng.randint(0, 3))])
     scheme = rng.choice(["http", "https"])
     hk, host = rng.choice(HOSTS)
     port = rng.choice(["", ":80", ":443", ":8080"])
